@@ -68,6 +68,9 @@ THEOREMS = [
     "Optyx.Props.C15.leftDeep_depth",
     "Optyx.Props.BuildTie.compile_step",
     "Optyx.Props.BuildTie.compileVec_step",
+    "Optyx.Props.BuildTie.cstep_eq",
+    "Optyx.Props.BuildTie.elemsIter_eq",
+    "Optyx.Props.BuildTie.buildIterFrame_text",
     "Optyx.Props.PinsC15.anchors",
 ]
 ASSUMPTIONS = [
